@@ -2,16 +2,22 @@
 
     Mirrors, for the tree with the two repairs applied (zero piece length rejected in
     [Verifier::new]; non-normal path components rejected by [FilePath]'s deserialiser):
-      - the loader as far as verification reads it ([load]: info.name, "piece length",
-        pieces, length/md5sum or files[length, path, md5sum]; serde's untagged choice
-        Single-before-Multiple; UTF-8 strings; md5sum = 32 hex digits),
+      - the loader: [load] is the PROJECTION of the metainfo onto what verification reads (info.name,
+        "piece length", pieces, length/md5sum or files[length, path, md5sum]; serde's untagged choice
+        Single-before-Multiple; UTF-8 strings; md5sum = 32 hex digits; a file entry as a dictionary or in
+        serde's sequence form) and ignores every other key; the command ([verify_cmd]) loads through
+        [load_typed], i.e. through the one typed loader [Summary.from_input] that models
+        [Metainfo::from_input] for show, link and verify alike (every key type-checked, content size within
+        64 bits, nesting bounded, i64 for skipped and buffered integers). Proofs/LoaderProofs.v:
+        [loaders_agree], [typed_rejects_more], [typed_exact] and one lemma per refused class,
       - the content-root choice of [Verify::run] and [Env::resolve],
       - [Verifier::new], [Verifier::hash] (the read loop with an arbitrary schedule of short
         reads, one running state across files, open/read errors ignored), [finish],
       - [FileError::verify], [Status::good].
     SHA-1, MD5 and the read schedule are [Section] variables. *)
 From Coq Require Import NArith ZArith List Bool.
-From Imdl Require Import Base.Chunks Model.Bencode Model.Fs.
+From Imdl Require Import Base.Chunks Model.Bencode Model.BencodeWide Model.Fs.
+From Imdl Require Model.Summary.
 Import ListNotations.
 Local Open Scope N_scope.
 
@@ -132,6 +138,8 @@ Definition load_comp (v : value) : option bytes :=
 Definition load_path (v : value) : option (list bytes) :=
   match v with Lst l => mapM load_comp l | _ => None end.
 
+(** a file entry: a dictionary, or serde's sequence form of the struct read from buffered content -
+    [length, path] or [length, path, md5sum] (X4: the real binary accepts `files: [[5, ["a"]]]`) *)
 Definition load_file (v : value) : option tfile :=
   match v with
   | Dict d =>
@@ -140,6 +148,19 @@ Definition load_file (v : value) : option tfile :=
           match load_u64 lv, load_path pv, load_opt load_md5 K_md5sum d with
           | Some len, Some p, Some m => Some {| fpath := p; flen := len; fmd5 := m |}
           | _, _, _ => None
+          end
+      | _, _ => None
+      end
+  | Lst (lv :: pv :: rest) =>
+      match load_u64 lv, load_path pv with
+      | Some len, Some p =>
+          match rest with
+          | [] => Some {| fpath := p; flen := len; fmd5 := None |}
+          | [mv] => match load_md5 mv with
+                    | Some m => Some {| fpath := p; flen := len; fmd5 := Some m |}
+                    | None => None
+                    end
+          | _ => None
           end
       | _, _ => None
       end
@@ -189,12 +210,87 @@ Definition load_value (v : value) : option torrent :=
   | _ => None
   end.
 
-(** trailing bytes after the top-level value are ignored, as bendy's serde reader does *)
+(** trailing bytes after the top-level value are ignored, as bendy's serde reader does; that reader does
+    not range-check integer tokens ([wdecode]; X4: this used the strict [decode] and so refused a torrent
+    whose `creation date` is 2^63, which the real `verify` accepts) *)
 Definition load (tb : bytes) : option torrent :=
-  match decode (2 * length tb + 2) tb with
+  match wdecode (fuel_for tb) tb with
   | Some (v, _) => load_value v
   | None => None
   end.
+
+(** ** the typed loader, projected: what [Metainfo::from_input] hands the verifier *)
+Definition md5_bytes (s : bytes) : bytes := match unhex s with Some b => b | None => [] end.
+
+Definition project_file (f : Summary.file) : tfile :=
+  {| fpath := Summary.f_path f; flen := Summary.f_length f; fmd5 := option_map md5_bytes (Summary.f_md5 f) |}.
+
+Definition project_mode (m : Summary.mode) : mode :=
+  match m with
+  | Summary.Single n md5 => Single n (option_map md5_bytes md5)
+  | Summary.Multiple fs => Multiple (map project_file fs)
+  end.
+
+Definition project (m : Summary.metainfo) : torrent :=
+  {| tname := Summary.m_name m; tplen := Summary.m_piece_length m;
+     tpieces := chunks 20 (Summary.m_pieces m); tmode := project_mode (Summary.m_mode m) |}.
+
+(** [host_disp], [url_norm]: the url crate (Host::parse, Url::parse), as in Model/Summary.v *)
+Definition load_typed (host_disp url_norm : bytes -> option bytes) (tb : bytes) : option torrent :=
+  match Summary.from_input host_disp url_norm tb with
+  | Some m => Some (project m)
+  | None => None
+  end.
+
+(** ** exactly what the typed loader demands beyond the projection [load]: one named check per class of
+    torrent that [load] accepts and [Metainfo::from_input] refuses (Proofs/LoaderProofs.v [typed_exact]) *)
+Definition is_some {A : Type} (o : option A) : bool := match o with Some _ => true | None => false end.
+
+Definition size_fits (t : torrent) : bool :=
+  match tmode t with
+  | Single _ _ => true
+  | Multiple fs => is_some (Summary.checked_sum 0 (map flen fs))
+  end.
+
+Section Extras.
+Variable host_disp : bytes -> option bytes.
+Variable url_norm : bytes -> option bytes.
+
+Definition x_depth (v : value) : bool := depth v <=? max_depth.
+Definition x_skipped_i64 (v : value) : bool := Summary.skipped_i64 v.
+Definition x_top_keys_utf8 (d : list (bytes * value)) : bool := Summary.keys_utf8 d.
+Definition x_announce d : bool := is_some (Summary.opt Summary.as_string Summary.k_announce d).
+Definition x_announce_list d : bool :=
+  is_some (Summary.opt (Summary.as_list (Summary.as_list Summary.as_string)) Summary.k_announce_list d).
+Definition x_comment d : bool := is_some (Summary.opt Summary.as_string Summary.k_comment d).
+Definition x_created_by d : bool := is_some (Summary.opt Summary.as_string Summary.k_created_by d).
+Definition x_creation_date d : bool := is_some (Summary.opt (Summary.as_uint 64) Summary.k_creation_date d).
+Definition x_encoding d : bool := is_some (Summary.opt Summary.as_string Summary.k_encoding d).
+Definition x_nodes d : bool :=
+  is_some (Summary.opt (Summary.as_list (Summary.as_node host_disp)) Summary.k_nodes d).
+Definition x_info_keys_utf8 (i : list (bytes * value)) : bool := Summary.keys_utf8 i.
+Definition x_private i : bool := is_some (Summary.opt Summary.as_bool Summary.k_private i).
+Definition x_piece_length_u64 i : bool := is_some (Summary.req (Summary.as_uint 64) Summary.k_piece_length i).
+Definition x_source i : bool := is_some (Summary.opt Summary.as_string Summary.k_source i).
+Definition x_update_url i : bool := is_some (Summary.opt (Summary.as_url url_norm) Summary.k_update_url i).
+
+Definition typed_checks (d i : list (bytes * value)) : bool :=
+  x_top_keys_utf8 d && x_announce d && x_announce_list d && x_comment d && x_created_by d &&
+  x_creation_date d && x_encoding d && x_nodes d &&
+  x_info_keys_utf8 i && x_private i && x_piece_length_u64 i && x_source i && x_update_url i.
+
+Definition extras_value (v : value) : bool :=
+  match v with
+  | Dict d => match dlookup K_info d with
+              | Some (Dict i) => x_depth v && x_skipped_i64 v && typed_checks d i
+              | _ => false
+              end
+  | _ => false
+  end.
+
+Definition extras (tb : bytes) : bool :=
+  match wdecode (fuel_for tb) tb with Some (v, _) => extras_value v | None => false end.
+End Extras.
 
 (** ** content root ([Verify::run]) *)
 Inductive target := TStdin | TPath (p : bytes).
@@ -235,6 +331,8 @@ Section Verify.
 Variable H : bytes -> bytes.       (* SHA-1 *)
 Variable MD5 : bytes -> bytes.
 Variable sch : nat -> N.           (* how many bytes the i-th read returns, see [legal] *)
+Variable host_disp : bytes -> option bytes.   (* url::Host::parse + Display, used by the typed loader only *)
+Variable url_norm : bytes -> option bytes.    (* Url::parse + Display, used by the typed loader only *)
 
 Definition blen (s : bytes) : N := N.of_nat (length s).
 
@@ -360,7 +458,7 @@ Inductive outcome := Success | Failed | Rejected.
 Definition verify_cmd (fs : node) (cwd : bytes) (content base : option bytes) (input : target)
            (tb : bytes) : option outcome :=
   if negb (args_ok content base input) then Some Rejected else
-  match load tb with
+  match load_typed host_disp url_norm tb with
   | None => Some Rejected
   | Some t =>
       match env_resolve cwd (content_root content base input (tname t)) with
